@@ -151,8 +151,8 @@ fn navigate(ctx: &mut Ctx, label: &str, x: &dyn Introspect, rng: &mut Rng, seque
 
 pub fn run(ctx: &mut Ctx, reg: &Registry) {
     let subs = subjects(reg);
-    let nvals = nvals(ctx, 3, 12);
-    let seqs = if slow_build() { 1 } else { ctx.t(6, 40) };
+    let nvals = nvals(ctx, 6, 12);
+    let seqs = if slow_build() { 1 } else { ctx.t(15, 40) };
     for s in subs.iter() {
         if !ctx.mine(s.index) || !ctx.wants_type(&s.label) || !slow_keep(s) {
             continue;
